@@ -184,6 +184,13 @@ func (e *executor) act(tp *simkit.Tape, ch chanRef, now int64, cfg migGenCfg) (m
 	}
 	if t.Phase == phVerifyLdr || t.Phase == phVerifyMem {
 		abortW *= 10 // an operator cancelling late, right after the cutover, is the interesting moment
+		if cfg.rogue && tp.Intn(3) == 0 {
+			// a task-only Advance that does not follow the workflow: back to a pre-cutover phase
+			back := []metadb.ChannelMigrationPhase{phProbe, phDrain, phFinal, phWarm, phAddLearner}[tp.Intn(5)]
+			return e.advanceCmd(tp, ch, t, v.meta, now, back, stRunning, false, true), true
+		}
+	} else if cfg.rogue {
+		abortW *= 3
 	}
 	switch tp.Weighted([]int{24, abortW, 2, 2, 2, 1, 1}) {
 	case 0:
